@@ -159,6 +159,21 @@ def run_case(case, seed):
             if any(not np.array_equal(np.asarray(md[kp]), dyn[kp]) for kp, _ in dsig) or any(not np.array_equal(np.asarray(mc[kp]), con[kp]) for kp, _ in csig):
                 bad("C15/argument-mutated", "windowing modified its input fields")
             # causality on the decoded time stamps: no target time is an input time of the same sample
+        # dtype mix: integer-typed dynamic fields, float constants with non-integer values (must arrive unchanged)
+        if const_sig and vi in (1, 3):
+            dyn, con = traj(dyn_sig, const_sig, 0)
+            con = {kp: b + 0.25 for kp, b in con.items()}
+            md = geom.MultiImage({kp: jnp.asarray(dyn[kp].astype(np.int32)) for kp, _ in dyn_sig}, D, flags)
+            mc = geom.MultiImage({kp: jnp.asarray(con[kp]) for kp, _ in const_sig}, D, flags)
+            gx, gy = gdata.times_series_to_multi_images(md, mc, T, p, f, s, dt, 0)
+            evals += 1
+            X, _ = expected(dyn, con, dyn_sig, const_sig) if ds == 0 else (None, None)
+            if X is not None:
+                for kp in X:
+                    a = np.asarray(gx[kp]).astype(np.float64)
+                    if a.shape != X[kp].shape or not np.array_equal(a, X[kp].astype(np.float64)):
+                        bad("C15/dtype/int-dynamic-float-constant", f"input block {kp}: integer-typed dynamic fields with float constants: frames or constants changed value")
+                        break
         # batched variant == per-trajectory stacked trajectory-major
         for nb in (1, 2, 3):
             if (nb + vi + T) % 3 != 0 and not (vi == 1):
